@@ -172,7 +172,8 @@ def flux_per_triangle(ctx, with_model=True):
 
 def paired_runs(ctx, stop_first=False):
     first = None
-    combos = [("um", "mT", "uA"), ("nm", "uT", "nA"), ("mm", "T", "mA")] if ctx.quick else [("um", "mT", "uA"), ("nm", "uT", "nA"), ("mm", "T", "mA"), ("nm", "T", "uA"), ("um", "uT", "mA")]
+    # (the last quick triple has a current/length ratio that is NOT numerically A/m)
+    combos = [("um", "mT", "uA"), ("nm", "uT", "nA"), ("mm", "T", "mA"), ("nm", "mT", "mA")] if ctx.quick else [("um", "mT", "uA"), ("nm", "uT", "nA"), ("mm", "T", "mA"), ("nm", "T", "uA"), ("um", "uT", "mA")]
     cfgs = [dict(kind="bar", B=0.4e-3, I=3e-6, screening=False), dict(kind="ring", B=0.6e-3, I=None, screening=True),
             # the applied field is re-evaluated (and re-scaled from the user's units) at every step
             dict(kind="ring", B=0.6e-3, I=None, screening=True, td=True), dict(kind="bar", B=0.5e-3, I=2e-6, screening=False, td=True),
@@ -208,8 +209,14 @@ def paired_runs(ctx, stop_first=False):
                 continue
             frames = runs.parse_h5(sol.path)[0]
             Kphys = sol.current_density.to("A/m").magnitude
-            results.append((frames, Kphys))
+            # physical outputs asked for repeatedly: the field above the film (twice), then the current density again
+            pos_ = np.array([[0.3e-6, 0.2e-6], [-0.8e-6, 0.5e-6], [1.1e-6, -0.4e-6]]) / LENGTHS[lu]
+            B1 = np.asarray(sol.field_at_position(pos_, zs=0.7e-6 / LENGTHS[lu], units="mT", with_units=False))
+            B2 = np.asarray(sol.field_at_position(pos_, zs=0.7e-6 / LENGTHS[lu], units="mT", with_units=False))
+            Kphys = np.concatenate([Kphys.ravel(), sol.current_density.to("A/m").magnitude.ravel()])
+            results.append((frames, Kphys, np.concatenate([B1.ravel(), B2.ravel()])))
         failed = [(c, r[1]) for c, r in zip(combos, results) if r[0] is None]
+        results = [r if r[0] is None else r for r in results]
         if failed:
             if len(failed) == len(results):
                 raise V.Infra(f"C08 configuration {cfg} does not run in any unit system: {failed[0][1]}")
@@ -219,8 +226,8 @@ def paired_runs(ctx, stop_first=False):
             if stop_first:
                 return first
             continue
-        base, Kb = results[0]
-        for (lu, fu, cu), (fr, Kp) in zip(combos[1:], results[1:]):
+        base, Kb, Bb = results[0]
+        for (lu, fu, cu), (fr, Kp, Bp) in zip(combos[1:], results[1:]):
             tag = dict(device=cfg["kind"], units=[lu, fu, cu], screening=cfg["screening"], time_dependent_field=bool(cfg.get("td")), current_loop_drive=bool(cfg.get("loop")))
             for fa, fb in zip(base, fr):
                 da, db = fa["data"], fb["data"]
@@ -238,6 +245,11 @@ def paired_runs(ctx, stop_first=False):
                     if stop_first:
                         return first
                     break
+            relB = float(np.abs(Bp - Bb).max() / (np.abs(Bb).max() + 1e-300))
+            ctx.tol("field above the film in mT, asked twice (rel)", relB, 1e-6 if cfg["screening"] else 1e-8)
+            if relB > (1e-6 if cfg["screening"] else 1e-8):
+                ctx.fail("unit-dependent-output:field", f"the field above the film (asked twice) differs between unit systems (rel {relB:.2e})", dict(tag, rel=relB))
+                first = first or dict(key="unit-dependent-output:field", what="B", **tag)
             relK = float(np.abs(Kp - Kb).max() / (np.abs(Kb).max() + 1e-300))
             ctx.tol("physical current density in A/m (rel)", relK, 1e-6 if cfg["screening"] else 1e-9)
             if relK > (1e-6 if cfg["screening"] else 1e-9):
